@@ -276,6 +276,62 @@ def self_conflicting_option(case):
     return False
 
 
+def py_closure(case, sigma):
+    """derivation closure under a partial assignment (guard helper only — the oracle is the Coq model)"""
+    succ = {}
+    for s, t in case.get('edges', []):
+        succ.setdefault(s, []).append(t)
+    chs = {sc['id']: sc for sc in case.get('sel', [])}
+    for sc in case.get('sel', []):
+        succ.setdefault(sc['origin'], []).append(sc['id'])
+    seen = set(case['start'])
+    todo = list(seen)
+    while todo:
+        x = todo.pop()
+        nxt = ([sigma[x]] if x in sigma else []) if x in chs else succ.get(x, [])
+        for y in nxt:
+            if y not in seen:
+                seen.add(y)
+                todo.append(y)
+    return seen
+
+
+def dead_end_prefix(case, limit=3000):
+    """K8 guard: some legal partial resolution reaches a state in which an active choice has no option left that is free
+    of incompatible pairs (the implementation's zero-option infeasibility marker is what is then relied upon)"""
+    inc = [tuple(p) for p in case.get('incompat', [])]
+    if not inc:
+        return any(len(sc['options']) == 0 for sc in case.get('sel', []))
+    chs = {sc['id']: sc for sc in case.get('sel', [])}
+
+    def conflict(W):
+        return any(a in W and b in W for a, b in inc)
+    seen_states = set()
+    todo = [{}]
+    n = 0
+    while todo and n < limit:
+        sg = todo.pop()
+        key = tuple(sorted(sg.items()))
+        if key in seen_states:
+            continue
+        seen_states.add(key)
+        n += 1
+        W = py_closure(case, sg)
+        if conflict(W):
+            continue
+        for c in [c for c in W if c in chs and c not in sg]:
+            viable = []
+            for o in chs[c]['options']:
+                s2 = dict(sg)
+                s2[c] = o
+                if not conflict(py_closure(case, s2)):
+                    viable.append(s2)
+            if not viable:
+                return True
+            todo.extend(viable)
+    return False
+
+
 def all_ids(case):
     return set(range(case['n'])) | {sc['id'] for sc in case.get('sel', [])} | {cc['id'] for cc in case.get('conn', [])}
 
